@@ -2,6 +2,13 @@
 EXTENDS ClassModel
 Cl3 == <<"A", "B", "C">>
 Cl2 == <<"A", "B">>
+Mro3 == [A |-> <<"A">>, B |-> <<"B", "A">>, C |-> <<"C", "B", "A">>]
+Mro2 == [A |-> <<"A">>, B |-> <<"B", "A">>]
+ClD == <<"A", "B", "C", "D">>                 \* a diamond: B(A), C(A), D(B, C)
+MroD == [A |-> <<"A">>, B |-> <<"B", "A">>, C |-> <<"C", "A">>, D |-> <<"D", "B", "C", "A">>]
+N12sel == <<"s", "x">>
+K12sel0 == [x |-> "plain", s |-> "sel0"]
+K12sel1 == [x |-> "plain", s |-> "sel1"]
 N12 == <<"m", "x">>
 K12i == [x |-> "plain", m |-> "mut_inst"]
 K12s == [x |-> "plain", m |-> "mut_shared"]
@@ -15,9 +22,11 @@ N14n == <<"k", "z">>
 K14n == [k |-> "const", z |-> "constnone"]
 N12c == <<"m", "z">>
 K12c == [m |-> "mut_shared", z |-> "constnone"]
-A12 == {"readns", "instparam", "classset", "new", "instset", "instmeta", "mutate"}
+A12 == {"readns", "instparam", "classset", "new", "instset", "instmeta", "mutate", "skipref"}
+A12sel == {"instparam", "classset", "new", "instset", "objsappend", "readns"}
+A13d == {"readns", "classset", "addparam", "new", "instset", "classmeta"}
 A13 == {"readns", "instparam", "classset", "addparam", "new", "instset"}
 A14 == {"classset", "new", "instset", "edit", "instparam"}
 A02 == {"classset", "new", "instset", "instparam", "readns"}
-AAll == A12 \cup A13 \cup A14
+AAll == A12 \cup A13 \cup A14 \cup A12sel \cup A13d
 ====
